@@ -27,6 +27,13 @@ StepWhy(P, s2, act, ob) ==
     ELSE IF Len(ob.trees) # Len(rep.trees) \/ Len(ob.views) # Len(rep.views) THEN "object-count"
     ELSE IF \E t \in DOMAIN rep.trees : ob.trees[t].x # rep.trees[t].x \/ ob.trees[t].ty # rep.trees[t].ty \/ ob.trees[t].e # rep.trees[t].e
          THEN (IF act.a = "write" THEN "write-not-visible-in-owner-or-leaked" ELSE "tree-content-changed")
+    ELSE IF \E t \in DOMAIN rep.trees : \E i \in Nodes(P) :
+              LET nv == ob.trees[t].nav[i + 1] IN                      \* what the handle of node i reports: <<parent id, the parent handle's x, children ids, x by column name>>
+              \/ nv[1] # Par(P, i)
+              \/ (Par(P, i) # -1 /\ nv[2] # rep.trees[t].x[Par(P, i) + 1])
+              \/ { nv[3][q] : q \in DOMAIN nv[3] } # Kids(P, i) \/ Len(nv[3]) # Cardinality(Kids(P, i))
+              \/ nv[4] # rep.trees[t].x[i + 1]
+         THEN "node-parent-children" \o (IF act.a = "write" THEN "-after-write" ELSE "")
     ELSE LET ws == { ViewWhy(rep.views[v], ob.views[v], s2.views[v].kind) : v \in DOMAIN rep.views } \ {""} IN
          IF ws # {} THEN (CHOOSE w \in ws : TRUE) \o (IF act.a = "write" THEN "-after-write" ELSE "")
          ELSE IF \E v \in DOMAIN s2.views : s2.views[v].kind = "branch" /\ ob.views[v].segs # BranchSegs(s2.views[v].idx) THEN "branch-segments"
@@ -43,6 +50,14 @@ Step == /\ ci <= Len(Obs)
            ELSE IF o.treesegs # TreeSegs(c.P) THEN Fail(o, "tree-segments")
            ELSE IF { <<e[1], e[2]>> : e \in { o.adj[j] : j \in DOMAIN o.adj } } # { <<Par(c.P, q), q>> : q \in 1 .. Len(c.P) - 1 } \/ Len(o.adj) # Len(c.P) - 1
                 THEN Fail(o, "adjacency-matrix")
+           \* last stage of every history: a node of the first tree is re-parented in place through its handle (an admissible edit, SwcBase.Reparent);
+           \* the tree's segments, its adjacency matrix and what its node handles report are then those of the edited parent table
+           ELSE IF Len(o.edit) = 2 /\ (LET i == o.edit[1]  j == o.edit[2]  P2 == Reparent(c.P, i, j) IN
+                     \/ ~ReparentOK(c.P, i, j)
+                     \/ o.treesegs2 # TreeSegs(P2)
+                     \/ { <<e[1], e[2]>> : e \in { o.adj2[q] : q \in DOMAIN o.adj2 } } # { <<Par(P2, q), q>> : q \in 1 .. Len(P2) - 1 }
+                     \/ \E q \in Nodes(P2) : o.nav2[q + 1][1] # Par(P2, q) \/ { o.nav2[q + 1][3][m] : m \in DOMAIN o.nav2[q + 1][3] } # Kids(P2, q))
+                THEN Fail(o, "tree-segments-after-reparenting")
            ELSE bad' = bad /\ NextCase
 Next == Step
 Verdict == ci = Len(Obs) + 1 => PrintT(<<"VERDICT", Len(Obs), bad>>)
